@@ -192,8 +192,13 @@ impl RuleSpec {
         }
     }
 
-    /// Build the tz-rs rule through public constructors only. None = some constructor refused.
+    /// Build the tz-rs rule through public constructors only. None = some constructor refused
+    /// (or panicked: the executor will meet the same panic inside a measured call and report it).
     pub fn build(&self) -> Option<TransitionRule> {
+        std::panic::catch_unwind(|| self.build_inner()).unwrap_or(None)
+    }
+
+    fn build_inner(&self) -> Option<TransitionRule> {
         match self {
             RuleSpec::Fixed { off, desig } => Some(TransitionRule::Fixed(LocalTimeType::new(*off, false, Some(desig)).ok()?)),
             RuleSpec::Alt { std_off, std_desig, dst_off, dst_desig, start, start_time, end, end_time } => {
@@ -469,17 +474,25 @@ impl ZoneSpec {
     /// constructors. `Err(())` = some constructor refuses => decoding must refuse too.
     #[cfg(feature = "tz-alloc")]
     pub fn expected(&self) -> Result<TimeZone, ()> {
-        let p = self.parts()?;
-        TimeZone::new(p.trans, p.types, p.leaps, p.rule).map_err(|_| ())
+        // a panic of the library here is not the harness's to report: the executor decodes the same
+        // bytes inside a measured call and reports it there
+        std::panic::catch_unwind(|| {
+            let p = self.parts()?;
+            TimeZone::new(p.trans, p.types, p.leaps, p.rule).map_err(|_| ())
+        })
+        .unwrap_or(Err(()))
     }
 
     /// Would the public constructors accept this spec? (allocation-free API only, so the
     /// generator takes the same decisions in every feature configuration)
     pub fn valid(&self) -> bool {
-        match self.parts() {
+        // if the library panics on this spec, keep the spec as it is ("valid") so that the executor
+        // runs into the same panic inside a measured call
+        std::panic::catch_unwind(|| match self.parts() {
             Ok(p) => tz::timezone::TimeZoneRef::new(&p.trans, &p.types, &p.leaps, &p.rule).is_ok(),
             Err(()) => false,
-        }
+        })
+        .unwrap_or(true)
     }
 
     /// The parts of the zone this spec encodes, built through the allocation-free public
